@@ -46,6 +46,7 @@ def run(F, R):
     v2_v3(F, R, M, roles, hdr)
     v4_credit(F, R)
     v7_credit_from_every_packet(F, R)
+    v10_body_bounded(F, R)
     # V8: a packet is attributed to the connection whose full addressing it carries (shared with C18.X5): otherwise the
     # bytes and the credit of one stream are applied to another
     from .C18 import x5_predicates
@@ -458,6 +459,42 @@ def v7_credit_from_every_packet(F, R):
                 'the stored peer credit is never refreshed from %s events: credit carried by those packets - e.g. a reduced buf_alloc in a '
                 'data packet - is ignored and the next send may exceed what the peer advertised' % '/'.join(missing))
     R.count('credit_refresh_sites', n)
+
+
+def v10_body_bounded(F, R):
+    """The payload handed on for a received packet is exactly header.len bytes: the body slice is taken with a two-sided
+    range whose end is (header size + header length field), never "everything after the header" (the used length the device
+    reports may exceed header + len)."""
+    n = 0
+    for b in F.bodies.values():
+        if not F.handwritten(b) or 'device::socket' not in b['id'] or b['kind'] not in ('Fn', 'AssocFn'):
+            continue
+        sig = b.get('sig', '')
+        if 'VirtioVsockHdr' not in sig.split('->')[-1] or '[u8]' not in sig.split('->')[-1] or b['arg_count'] != 1:
+            continue
+        sg = supergraph(F, b['id'])
+        where = fn_site(F, b['id'])
+        try:
+            paths = [p for p in PathEnum(sg).run() if not p.panicked and err_variant(p.ret) == 'Ok']
+        except PathLimit as e:
+            R.abstain('V10', b['id'], str(e), where)
+            continue
+        n += 1
+        bad = None
+        for p in paths:
+            tup = p.ret[2][0]
+            body = tup[2][1] if tup[0] == 'agg' and len(tup[2]) > 1 else None
+            rngs = [x for x in subterms(body) if x[0] == 'agg' and x[1].startswith('core::ops::Range')] if body else []
+            two_sided = [x for x in rngs if x[1].startswith('core::ops::Range::')]
+            if not two_sided:
+                bad = 'the body is %s' % (fmt(body)[:100] if body else None)
+                continue
+            end = two_sided[0][2][1]
+            if not derives_from(end, lambda x: x[0] == 'call' and (x[2].endswith('::len') and 'Hdr' in x[2] or 'VirtioVsockHdr' in x[2]) or (x[0] in ('field', 'load', 'load0') and fmt(x).endswith('.len'))):
+                bad = 'the end of the body range (%s) does not come from the header\'s length field' % fmt(end)[:80]
+        R.check(bad is None and bool(paths), 'V10', '%s:body-is-header-len' % b['id'], where, 'body = buffer[header size .. header size + header.len]',
+                'received payload: %s; bytes past the payload length (padding / stale buffer contents) are delivered and counted against the credit' % bad)
+    R.count('body_parsers', n)
 
 
 def v5_fwd(F, R):
